@@ -22,6 +22,10 @@ type Mutant struct {
 	Replace string `json:"replace"`
 	Expect  string `json:"expect"`
 	Nth     int    `json:"nth,omitempty"` // which occurrence of Find (1-based, default: must be unique)
+	More    []struct {
+		Find    string `json:"find"`
+		Replace string `json:"replace"`
+	} `json:"more,omitempty"` // further edits of the same file (each Find unique), for changes that touch several places
 }
 
 func analyze(id, tier string, seed int, overlay map[string][]byte) *core.Check {
@@ -106,6 +110,19 @@ func runMutants(id string, verbose bool) (fired, total int, failures []string) {
 			mutated = strings.Replace(s, m.Find, m.Replace, 1)
 		default:
 			failures = append(failures, fmt.Sprintf("%s: find text occurs %d times, set nth", m.Name, n))
+			continue
+		}
+		staleMore := false
+		for _, e := range m.More {
+			if strings.Count(mutated, e.Find) != 1 {
+				staleMore = true
+				break
+			}
+			mutated = strings.Replace(mutated, e.Find, e.Replace, 1)
+		}
+		if staleMore {
+			fmt.Printf("  STALE  %s: text of a further edit no longer exists (or is not unique)\n", m.Name)
+			total--
 			continue
 		}
 		c := analyze(id, "quick", 0, map[string][]byte{path: []byte(mutated)})
